@@ -91,6 +91,9 @@ pub fn install_panic_hook() {
         } else {
             String::new()
         };
+        if std::env::var("PVH_VERBOSE").is_ok() {
+            eprintln!("panic at {}: {}", loc, msg);
+        }
         LAST_PANIC.with(|p| *p.borrow_mut() = loc);
         LAST_PANIC_MSG.with(|p| *p.borrow_mut() = msg);
     }));
